@@ -183,6 +183,12 @@ func runC08(c *Ctx) {
 				if len(extra) > 0 {
 					keyBad = append(keyBad, fmt.Sprintf("the cached value depends on %v but the key is only %s: a later call with a different %v is answered from the entry computed for this one", extra, keyK, extra))
 				}
+				// the key must hold what the value is computed from ITSELF, not a normalised, truncated or hashed
+				// form of it: two different inputs that normalise alike share one entry although each is analysed
+				// with its raw spelling
+				for _, m := range regexp.MustCompile(`((?:strings|bytes|unicode|hash/\w+|crypto/\w+)\.[A-Za-z]+)\(`).FindAllStringSubmatch(keyK, -1) {
+					keyBad = append(keyBad, fmt.Sprintf("the key holds %s(...) of an input instead of the input itself (%s): inputs that differ but normalise alike are answered from one entry, which was computed from the raw spelling of whichever came first", m[1], shorten(keyK, 120)))
+				}
 				for _, ld := range loads {
 					if keyOf(ld.Args[1]) != keyK {
 						keyBad = append(keyBad, "Load and Store use different keys: "+keyOf(ld.Args[1])+" vs "+keyK)
@@ -338,6 +344,78 @@ func runC08Copy(c *Ctx, gname string) {
 				}
 				if cachedRooted(k0) {
 					bad = append(bad, fmt.Sprintf("%s: store into %s, which is memory of the cached per-type info shared by all later calls", p.Pos(instrPos(e.Site)), shorten(keyOf(e.Args[0]), 100)))
+				}
+			}
+		}
+	}
+	// anywhere in the package (callbacks, setters, clean-up code): a cached entry taken back out of an
+	// interface value (the cache hands entries around as interface{}) is never written — its slices are the
+	// ones a walk in progress is still reading, also after the entry has been evicted
+	for _, fn := range p.Funcs {
+		if fn.Pkg == nil || fn.Pkg != p.Pkg("valid") {
+			continue
+		}
+		for _, b := range fn.Blocks {
+			for _, ins := range b.Instrs {
+				st, ok := ins.(*ssa.Store)
+				if !ok {
+					continue
+				}
+				ia, ok := st.Addr.(*ssa.IndexAddr)
+				if !ok {
+					continue
+				}
+				// the slice: a field of a value whose origin is a type assertion
+				var base ssa.Value
+				switch x := ia.X.(type) {
+				case *ssa.Field:
+					base = x.X
+				case *ssa.UnOp:
+					if fa, ok := x.X.(*ssa.FieldAddr); ok {
+						base = fa.X
+					}
+				}
+				if base == nil {
+					continue
+				}
+				seen := map[ssa.Value]bool{}
+				var fromAssert func(v ssa.Value, d int) bool
+				fromAssert = func(v ssa.Value, d int) bool {
+					if v == nil || seen[v] || d > 6 {
+						return false
+					}
+					seen[v] = true
+					switch y := v.(type) {
+					case *ssa.TypeAssert:
+						return true
+					case *ssa.Extract:
+						return fromAssert(y.Tuple, d+1)
+					case *ssa.Phi:
+						for _, e := range y.Edges {
+							if fromAssert(e, d+1) {
+								return true
+							}
+						}
+					case *ssa.UnOp:
+						if al, ok := y.X.(*ssa.Alloc); ok {
+							for _, r := range refs(al) {
+								if s2, ok := r.(*ssa.Store); ok && s2.Addr == ssa.Value(al) && fromAssert(s2.Val, d+1) {
+									return true
+								}
+							}
+						}
+					case *ssa.Alloc:
+						for _, r := range refs(y) {
+							if s2, ok := r.(*ssa.Store); ok && s2.Addr == ssa.Value(y) && fromAssert(s2.Val, d+1) {
+								return true
+							}
+						}
+					}
+					return false
+				}
+				if n0 := namedOf(base.Type()); n0 != nil && n0.Obj().Name() == "structType" && fromAssert(base, 0) {
+					n++
+					bad = append(bad, fmt.Sprintf("%s: %s stores into a slice of a cached entry it took out of an interface value: the array is shared with every call that loaded the entry, a walk in progress reads the overwritten elements", p.Pos(st.Pos()), fnName(fn)))
 				}
 			}
 		}
